@@ -12,9 +12,16 @@ Record obs := mkObs {
   ob_allow : list Z;           (* allowance(owner, spender), row-major over the universe *)
   ob_idv : list iev;           (* what the identity verifier was asked during this call *)
   ob_cmp : list cev;           (* what the compliance contract was asked / told during this call *)
-  ob_cmp_set : bool;           (* does the compliance() getter answer (true) or trap (false) *)
-  ob_idv_set : bool            (* does the identity_verifier() getter answer or trap *)
+  ob_cmp_at : option addr;     (* what the compliance() getter answers (None = it traps: not set) *)
+  ob_idv_at : option addr;     (* what the identity_verifier() getter answers *)
+  ob_cmp_from : option addr;   (* the compliance contract that logged [ob_cmp] (None = nobody was called) *)
+  ob_idv_from : option addr    (* the identity verifier that logged [ob_idv] *)
 }.
+(* the collaborators' answer tables as the harness prints them: one table for all, or one for the
+   contracts 50 / 60 and another for 51 / 61 *)
+Definition orc1 (o : oracle) : addr -> oracle := fun _ => o.
+Definition orc2 (a b : oracle) : addr -> oracle := fun x => if N.eqb x 51 || N.eqb x 61 then b else a.
+
 Record item := I { it_call : call; it_out : res ret; it_obs : obs }.
 Record ttrace := mkTT { t_hc : hostcfg; t_univ : list addr; t_items : list item }.
 
@@ -44,6 +51,12 @@ Definition eqb_cev (x y : cev) : bool :=
   | CBadToken, CBadToken => true
   | _, _ => false
   end.
+Definition eqb_oaddr (x y : option addr) : bool :=
+  match x, y with
+  | Some a, Some b => N.eqb a b
+  | None, None => true
+  | _, _ => false
+  end.
 Definition eqb_ret (x y : ret) : bool :=
   match x, y with
   | None, None => true
@@ -65,7 +78,8 @@ Definition eqb_obs (x y : obs) : bool :=
   Bool.eqb (ob_paused x) (ob_paused y) && (ob_supply x =? ob_supply y)
   && eqb_list eqb_acct (ob_accts x) (ob_accts y) && eqb_list Z.eqb (ob_allow x) (ob_allow y)
   && perm_iev (ob_idv x) (ob_idv y) && eqb_list eqb_cev (ob_cmp x) (ob_cmp y)
-  && Bool.eqb (ob_cmp_set x) (ob_cmp_set y) && Bool.eqb (ob_idv_set x) (ob_idv_set y).
+  && eqb_oaddr (ob_cmp_at x) (ob_cmp_at y) && eqb_oaddr (ob_idv_at x) (ob_idv_at y)
+  && eqb_oaddr (ob_cmp_from x) (ob_cmp_from y) && eqb_oaddr (ob_idv_from x) (ob_idv_from y).
 
 (* ------------------------------------------------------------------ *)
 (* the model's observation                                              *)
@@ -76,7 +90,9 @@ Definition pairs (univ : list addr) : list (addr * addr) :=
 Definition observe (univ : list addr) (s : state) : obs :=
   mkObs (paused s) (supply s) (map (acct_of s) univ)
         (map (fun p => allowance s (fst p) (snd p)) (pairs univ))
-        (idv_log s) (cmp_log s) (cmp_set s) (idv_set s).
+        (idv_log s) (cmp_log s) (link_cmp s) (link_idv s)
+        (match cmp_log s with [] => None | _ => link_cmp s end)
+        (match idv_log s with [] => None | _ => link_idv s end).
 
 (* diff: replay the calls through the model, compare outcome and observation at every call *)
 Fixpoint diff_from (hc : hostcfg) (univ : list addr) (s : state) (items : list item) (i : N) : N :=
@@ -149,18 +165,24 @@ Definition allowance_spent (la la' : addr -> addr -> option Z) (from sp : addr) 
   | _, _ => true
   end.
 
+(* the answers that count: those of the collaborators the token pointed at BEFORE the call *)
+Definition eff_obs (prev : obs) (c : call) : oracle :=
+  let oi := c_orc c (match ob_idv_at prev with Some a => a | None => 0%N end) in
+  let oc := c_orc c (match ob_cmp_at prev with Some a => a | None => 0%N end) in
+  mkOracle (o_verified oi) (o_can_transfer oc) (o_can_create oc) (o_recovery oi).
+
 Definition gates_ok (lk : addr -> option acct) (la la' : addr -> addr -> option Z) (prev cur : obs) (c : call) (r : ret) : bool :=
   match c_op c with
-  | Transfer from to amt => has_auth (c_auths c) from && gates_transfer lk prev cur (c_orc c) from to amt
+  | Transfer from to amt => has_auth (c_auths c) from && gates_transfer lk prev cur (eff_obs prev c) from to amt
   | TransferFrom sp from to amt =>
       has_auth (c_auths c) sp && allowance_spent la la' from sp amt
-      && gates_transfer lk prev cur (c_orc c) from to amt
+      && gates_transfer lk prev cur (eff_obs prev c) from to amt
   | Approve owner sp amt _ =>
       has_auth (c_auths c) owner && (0 <=? amt)
       && match la' owner sp with Some q => q =? amt | None => true end
-  | Mint to amt _ => gates_mint cur (c_orc c) to amt
+  | Mint to amt _ => gates_mint cur (eff_obs prev c) to amt
   | Burn _ amt _ | ForcedTransfer _ _ amt _ | Freeze _ amt _ | Unfreeze _ amt _ => 0 <=? amt
-  | RecoverBalance old new _ => gates_recover lk cur (c_orc c) old new r
+  | RecoverBalance old new _ => gates_recover lk cur (eff_obs prev c) old new r
   | Pause _ => negb (ob_paused prev)
   | Unpause _ => ob_paused prev
   | _ => true
@@ -233,14 +255,61 @@ Definition paused_after (prev : obs) (c : call) : bool :=
 
 (* the links to the collaborators: set by set_compliance / set_identity_verifier and by nothing
    else, and never lost again (whatever time passes) *)
-Definition links_after (prev : obs) (c : call) (ok : bool) : bool * bool :=
+Definition links_after (prev : obs) (c : call) (ok : bool) : option addr * option addr :=
   match c_op c with
-  | SetCompliance _ => (if ok then true else ob_cmp_set prev, ob_idv_set prev)
-  | SetIdentityVerifier _ => (ob_cmp_set prev, if ok then true else ob_idv_set prev)
-  | _ => (ob_cmp_set prev, ob_idv_set prev)
+  | SetCompliance w _ => (if ok then Some w else ob_cmp_at prev, ob_idv_at prev)
+  | SetIdentityVerifier w _ => (ob_cmp_at prev, if ok then Some w else ob_idv_at prev)
+  | _ => (ob_cmp_at prev, ob_idv_at prev)
   end.
 Definition links_ok (prev cur : obs) (c : call) (ok : bool) : bool :=
-  Bool.eqb (ob_cmp_set cur) (fst (links_after prev c ok)) && Bool.eqb (ob_idv_set cur) (snd (links_after prev c ok)).
+  eqb_oaddr (ob_cmp_at cur) (fst (links_after prev c ok)) && eqb_oaddr (ob_idv_at cur) (snd (links_after prev c ok)).
+
+(* whoever was asked / told anything during the call is the collaborator the token pointed at
+   BEFORE the call (the currently registered one - not a stale or a first-registered one) *)
+Definition asked_ok (prev cur : obs) : bool :=
+  match ob_cmp cur with [] => eqb_oaddr (ob_cmp_from cur) None | _ => eqb_oaddr (ob_cmp_from cur) (ob_cmp_at prev) end
+  && match ob_idv cur with [] => eqb_oaddr (ob_idv_from cur) None | _ => eqb_oaddr (ob_idv_from cur) (ob_idv_at prev) end.
+
+(* every party a call names belongs to the observed universe (a trace that names others is malformed:
+   nothing could be said about them) *)
+Definition inu (univ : list addr) (a : addr) : bool := existsb (N.eqb a) univ.
+Definition wf_call (univ : list addr) (c : call) : bool :=
+  match c_op c with
+  | Transfer f t _ => inu univ f && inu univ t
+  | TransferFrom sp f t _ => inu univ sp && inu univ f && inu univ t
+  | Approve o sp _ _ => inu univ o && inu univ sp
+  | Mint t _ _ | Burn t _ _ | SetAddressFrozen t _ _ | Freeze t _ _ | Unfreeze t _ _ => inu univ t
+  | ForcedTransfer f t _ _ => inu univ f && inu univ t
+  | RecoverBalance o n _ => inu univ o && inu univ n
+  | _ => true
+  end.
+
+(* allowances change only by approve (to the approved amount), by transfer_from (minus the amount
+   spent) and by expiry when the ledger advances; the supply only by mint and burn *)
+Definition pair_eqb (p q : addr * addr) : bool := N.eqb (fst p) (fst q) && N.eqb (snd p) (snd q).
+Definition allow_after (c : call) (ok : bool) (pr : addr * addr) (p q : Z) : bool :=
+  if ok then
+    match c_op c with
+    | Approve ow sp amt _ => if pair_eqb pr (ow, sp) then q =? amt else q =? p
+    | TransferFrom spd from _ amt => if pair_eqb pr (from, spd) then q =? p - amt else q =? p
+    | Advance _ => (q =? p) || (q =? 0)
+    | _ => q =? p
+    end
+  else q =? p.
+Fixpoint allow_ok (c : call) (ok : bool) (prs : list (addr * addr)) (ps qs : list Z) : bool :=
+  match prs, ps, qs with
+  | [], [], [] => true
+  | pr :: prs', p :: ps', q :: qs' => allow_after c ok pr p q && allow_ok c ok prs' ps' qs'
+  | _, _, _ => false
+  end.
+Definition supply_after (prev : obs) (c : call) (ok : bool) : Z :=
+  if ok then
+    match c_op c with
+    | Mint _ amt _ => ob_supply prev + amt
+    | Burn _ amt _ => ob_supply prev - amt
+    | _ => ob_supply prev
+    end
+  else ob_supply prev.
 
 Definition mon_step (univ : list addr) (prev : obs) (it : item) : bool :=
   let cur := it_obs it in
@@ -250,8 +319,12 @@ Definition mon_step (univ : list addr) (prev : obs) (it : item) : bool :=
   let la := fun o sp => look2 o sp (combine (pairs univ) (ob_allow prev)) in
   let la' := fun o sp => look2 o sp (combine (pairs univ) (ob_allow cur)) in
   (length (ob_accts cur) =? length univ)%nat
+  && wf_call univ (it_call it)
   && inv_ok cur
   && links_ok prev cur (it_call it) (is_ok (it_out it))
+  && asked_ok prev cur
+  && allow_ok (it_call it) (is_ok (it_out it)) (pairs univ) (ob_allow prev) (ob_allow cur)
+  && (ob_supply cur =? supply_after prev (it_call it) (is_ok (it_out it)))
   && match it_out it with
      | Fail =>
          (* a failing call leaves no trace: same accounts, same pause flag, nobody was told anything *)
@@ -276,7 +349,7 @@ Fixpoint mon_from (univ : list addr) (prev : obs) (items : list item) (i : N) : 
 
 (* a fresh token: nothing minted, nothing frozen, not paused *)
 Definition obs0 (univ : list addr) : obs :=
-  mkObs false 0 (map (fun _ => (0, 0, false)) univ) (map (fun _ => 0) (pairs univ)) [] [] false false.
+  mkObs false 0 (map (fun _ => (0, 0, false)) univ) (map (fun _ => 0) (pairs univ)) [] [] None None None None.
 
 Definition check_token (t : ttrace) : verdict :=
   (diff_from (t_hc t) (t_univ t) init (t_items t) 0%N,
